@@ -7,7 +7,8 @@ EXPLANATION = ("Decides on the MIR of the current tree: no construct that swallo
                "a deadlock panic unwinds through user guards (P2); loom's own diagnostics are not raised from destructors while panicking (P3); "
                "no value owning user closures is destroyed outside the model scope on the unwind path of Scheduler::tick (P4); process-level "
                "mutable state is exactly the inventoried statics (P5). Behaviour of the `generator` crate and panics at every point of user code "
-               "are not decided.")
+               "are not decided."
+               " Scheduler::switch always suspends (P6); G0/G1 cross-check switch and thread_done.")
 RULE_TEXT = ("rule instances = Drop impls x reachable accessor paths (P2/P3), denied callees (P1), cleanup drops of tick (P4), statics (P5); "
              "non-trivial when a concrete MIR site / item was matched")
 LEVEL_NOTE = "necessary conditions only; generator/scoped-tls behaviour trusted"
